@@ -204,6 +204,14 @@ func OpenFooter(sr *io.SectionReader) (tocOffset int64, footerSize int64, rErr e
 // Unexported fields are populated and TOCEntry fields that were
 // implicit in the JSON are populated.
 func (r *Reader) initFields() error {
+	if r.toc == nil {
+		return fmt.Errorf("TOC JSON is null")
+	}
+	for i, ent := range r.toc.Entries {
+		if ent == nil {
+			return fmt.Errorf("TOC entry %d is null", i)
+		}
+	}
 	r.m = make(map[string]*TOCEntry, len(r.toc.Entries))
 	r.chunks = make(map[string][]*TOCEntry)
 	var lastPath string
@@ -251,8 +259,7 @@ func (r *Reader) initFields() error {
 			r.m[ent.Name] = ent
 		}
 		if ent.Type == "reg" && ent.ChunkSize > 0 && ent.ChunkSize < ent.Size {
-			r.chunks[ent.Name] = make([]*TOCEntry, 0, ent.Size/ent.ChunkSize+1)
-			r.chunks[ent.Name] = append(r.chunks[ent.Name], ent)
+			r.chunks[ent.Name] = []*TOCEntry{ent}
 		}
 		if ent.ChunkSize == 0 && ent.Size != 0 {
 			ent.ChunkSize = ent.Size
